@@ -63,50 +63,60 @@ Definition is_wait (x : Z) : bool := (x =? -10) || (x <=? -100).
 Definition tries_of (x : Z) : Z := if x <=? -100 then - x - 100 else -1.
 Record rthread := { r_prog : list Z; r_wait : Z; r_left : Z; r_yield : bool; r_res : list Z }.
 
+Definition pc_idle (p : pc) : bool := match p with Idle => true | _ => false end.
+Definition rt_unyield (rt : rthread) : rthread :=
+  {| r_prog := r_prog rt; r_wait := r_wait rt; r_left := r_left rt; r_yield := false; r_res := r_res rt |}.
+(* an idle thread with no PopWait pending takes the next operation of its program *)
+Definition rt_begin (rt : rthread) : option (op * rthread) :=
+  match r_prog rt with
+  | [] => None
+  | x :: more =>
+      if is_wait x then Some (OpPop, {| r_prog := more; r_wait := x; r_left := tries_of x; r_yield := false; r_res := r_res rt |})
+      else Some (dec_op x, {| r_prog := more; r_wait := 0; r_left := 0; r_yield := false; r_res := r_res rt |})
+  end.
+(* a Push/Pop/Len call of the step model has returned r *)
+Definition rt_return (rt1 : rthread) (r : res) : rthread :=
+  if (r_wait rt1 =? 0) || res_success r || (r_left rt1 =? 0)
+  then {| r_prog := r_prog rt1; r_wait := 0; r_left := 0; r_yield := false; r_res := rev_append (enc_res r) (r_res rt1) |}
+  else if r_left rt1 <? 0
+  then {| r_prog := r_prog rt1; r_wait := r_wait rt1; r_left := -1; r_yield := true; r_res := r_res rt1 |}
+  else {| r_prog := r_prog rt1; r_wait := r_wait rt1; r_left := r_left rt1 - 1; r_yield := false; r_res := r_res rt1 |}.
+
+(* one schedule entry: new configuration, new run-level records, the tokens printed for it (none when skipped) *)
+Definition go1 (c : config) (rts : list rthread) (t : Z) : config * list rthread * list Z :=
+  let i := Z.to_nat t in
+  match nth_error (ths c) i, nth_error rts i with
+  | Some p, Some rt =>
+      let idle := pc_idle p in
+      if idle && r_yield rt then (c, updl rts i (rt_unyield rt), [t; 1; EvGosched; 0; 0; 0; 0])
+      else
+      let start :=
+        if negb idle then Some (OpPop, rt)
+        else if negb (r_wait rt =? 0) then Some (OpPop, rt)
+        else rt_begin rt in
+      match start with
+      | None => (c, rts, [])
+      | Some (o, rt1) =>
+          let ev := observe (sh c) p in
+          let c' := step c (i, o) in
+          let returned := negb idle && match nth_error (ths c') i with Some Idle => true | _ => false end
+                          && negb (Nat.eqb (length (hist c')) (length (hist c))) in
+          let rt2 :=
+            if returned then
+              match last (map (fun e => Some (snd e)) (hist c')) None with
+              | Some r => rt_return rt1 r
+              | None => rt1
+              end
+            else rt1 in
+          (c', updl rts i rt2, t :: ev)
+      end
+  | _, _ => (c, rts, [])
+  end.
+
 Fixpoint go (c : config) (rts : list rthread) (sched : list Z) (acc : list Z) : config * list rthread * list Z :=
   match sched with
   | [] => (c, rts, acc)
-  | t :: rest =>
-      let i := Z.to_nat t in
-      match nth_error (ths c) i, nth_error rts i with
-      | Some p, Some rt =>
-          let idle := match p with Idle => true | _ => false end in
-          if idle && r_yield rt then
-            go c (updl rts i {| r_prog := r_prog rt; r_wait := r_wait rt; r_left := r_left rt; r_yield := false; r_res := r_res rt |}) rest
-               (rev_append [t; 1; EvGosched; 0; 0; 0; 0] acc)
-          else
-          let start :=
-            if negb idle then Some (OpPop, rt)
-            else if negb (r_wait rt =? 0) then Some (OpPop, rt)
-            else match r_prog rt with
-                 | [] => None
-                 | x :: more =>
-                     if is_wait x then Some (OpPop, {| r_prog := more; r_wait := x; r_left := tries_of x; r_yield := false; r_res := r_res rt |})
-                     else Some (dec_op x, {| r_prog := more; r_wait := 0; r_left := 0; r_yield := false; r_res := r_res rt |})
-                 end in
-          match start with
-          | None => go c rts rest acc
-          | Some (o, rt1) =>
-              let ev := observe (sh c) p in
-              let c' := step c (i, o) in
-              let returned := negb idle && match nth_error (ths c') i with Some Idle => true | _ => false end
-                              && negb (Nat.eqb (length (hist c')) (length (hist c))) in
-              let rt2 :=
-                if returned then
-                  match last (map (fun e => Some (snd e)) (hist c')) None with
-                  | Some r =>
-                      if (r_wait rt1 =? 0) || res_success r || (r_left rt1 =? 0)
-                      then {| r_prog := r_prog rt1; r_wait := 0; r_left := 0; r_yield := false; r_res := rev_append (enc_res r) (r_res rt1) |}
-                      else if r_left rt1 <? 0
-                      then {| r_prog := r_prog rt1; r_wait := r_wait rt1; r_left := -1; r_yield := true; r_res := r_res rt1 |}
-                      else {| r_prog := r_prog rt1; r_wait := r_wait rt1; r_left := r_left rt1 - 1; r_yield := false; r_res := r_res rt1 |}
-                  | None => rt1
-                  end
-                else rt1 in
-              go c' (updl rts i rt2) rest (rev_append (t :: ev) acc)
-          end
-      | _, _ => go c rts rest acc
-      end
+  | t :: rest => let '(c', rts', toks) := go1 c rts t in go c' rts' rest (rev_append toks acc)
   end.
 
 Definition stored (s : shared) : list Z :=
@@ -268,6 +278,34 @@ Definition judge (args : list Z) : list Z :=
                  | _ => false end in
       [zb (j_ok s && okr && fin)]
   | _ => [0]
+  end.
+
+(* ---- well-formed cases (hypothesis of the refinement theorem Props/C11.v: c11_judge_accepts_model) ----
+   op codes are the documented ones (v > 0 Push v, 0 Pop, -1 Len, -10 PopWait(-1), -100 - n timed PopWait; this excludes
+   -9..-2 and -99..-11, which run_case reads as Pop and the judge as Len), schedule entries are not negative (a thread id
+   that is too large is skipped by the run), and EITHER no program contains the blocking PopWait(-1) and every timed
+   PopWait makes at most 3 further tries (codes -103..-100; the harness uses -102..-100) OR the run reaches quiescence
+   within the completion tail: no call is in flight at the end (a blocking PopWait(-1) that never finds a value keeps
+   spinning and is excluded by this clause). *)
+Definition op_ok (x : Z) : bool := (-1 <=? x) || (x =? -10) || (x <=? -100).
+(* programs for which quiescence is a theorem (Proofs/SyncListJudgeLive.v): no blocking PopWait(-1), timed PopWait with at
+   most 3 further tries *)
+Definition op_live (x : Z) : bool := (-1 <=? x) || ((-103 <=? x) && (x <=? -100)).
+Definition init_rts (progs : list (list Z)) : list rthread :=
+  map (fun pr => {| r_prog := pr; r_wait := 0; r_left := 0; r_yield := false; r_res := [] |}) progs.
+Definition quiescent (c : config) (rts : list rthread) : bool :=
+  forallb pc_idle (ths c) && forallb (fun rt => r_wait rt =? 0) rts.
+Definition wf_case (args : list Z) : bool :=
+  match args with
+  | npre :: nt :: r =>
+      let n := Z.to_nat nt in
+      let (progs, r1) := get_lists n r in
+      let (sched, _) := get_list r1 in
+      forallb (forallb op_ok) progs && forallb (fun t => 0 <=? t) sched &&
+      (forallb (forallb op_live) progs ||
+       let '(c, rts', _) := go (seq_state (Z.to_nat npre) n) (init_rts progs) (sched ++ completion n progs) [] in
+       quiescent c rts')
+  | _ => false
   end.
 
 Definition entry (sub : Z) (args : list Z) : list Z :=
